@@ -428,8 +428,10 @@ func (r *runner) handleInterrupt(
 		Inputs:         make(map[string]any),
 		SkipPreHandler: map[string]bool{},
 	}
-	if state, ok := ctx.Value(stateKey{}).(*internalState); ok {
-		cp.State = state.state
+	if r.runCtx != nil { // only a graph that declares state has a state of its own to save; the one in ctx may be its parent's
+		if state, ok := ctx.Value(stateKey{}).(*internalState); ok {
+			cp.State = state.state
+		}
 	}
 	intInfo := &InterruptInfo{
 		State:       cp.State,
@@ -508,8 +510,10 @@ func (r *runner) handleInterruptWithSubGraphAndRerunNodes(
 		SkipPreHandler: skipPreHandler,
 		SubGraphs:      make(map[string]*checkpoint),
 	}
-	if state, ok := ctx.Value(stateKey{}).(*internalState); ok {
-		cp.State = state.state
+	if r.runCtx != nil { // only a graph that declares state has a state of its own to save; the one in ctx may be its parent's
+		if state, ok := ctx.Value(stateKey{}).(*internalState); ok {
+			cp.State = state.state
+		}
 	}
 	intInfo := &InterruptInfo{
 		State:      cp.State,
